@@ -96,22 +96,17 @@ def _field_tables(args):
 
 
 def _identity_guard(q, args, extra=()):
-    """the model compares tables through (name, schema chain, alias); shapes whose Python equality looks at more are
-    left to the other ties"""
+    """the model compares tables through (name, schema chain, alias, temporal version); shapes whose Python equality looks at
+    more are left to the other ties"""
     if _has_setop_identity(q, extra):
         raise Unsupported("set operation among the sources (identity)")
     for t in _field_tables(args):
         if isinstance(t, Q._SetOperation):
             raise Unsupported("field of a set operation (identity)")
-        if isinstance(t, Q.Table) and (t._for or t._for_portion):
-            raise Unsupported("field of a temporal table (identity)")
         if isinstance(t, Q.AliasedQuery):
             for s in list(q._from) + [j.item for j in q._joins]:
                 if isinstance(s, Q.QueryBuilder) and s.alias == t.name:
                     raise Unsupported("named query and sub-query with one name (identity)")
-    for s in list(q._from) + [q._update_table] + [j.item for j in q._joins] + list(extra):
-        if isinstance(s, Q.Table) and (s._for or s._for_portion):
-            raise Unsupported("temporal table among the sources (identity)")
 
 
 
@@ -457,7 +452,7 @@ def _wrap_setop(cls, name, ctor):
                     if o is not None and not isinstance(o, Order):
                         raise Unsupported("order %r" % (o,))
                     f0 = self.base_query._from[0] if self.base_query._from else None
-                    if isinstance(f0, Q._SetOperation) or isinstance(f0, Q.Table) and (f0._for or f0._for_portion):
+                    if isinstance(f0, Q._SetOperation):
                         raise Unsupported("orderby base (identity)")
                     rec.call = [{"m": "orderby", "args": [d_arg(x) for x in args], "order": describe.d_ord(o)}]
                 else:
@@ -717,7 +712,7 @@ def _wrap_joiner(name):
                     call.update({"kind": name, "names": list(args)})
                     if name == "on_field" and self.query._from:
                         f0 = self.query._from[0]
-                        if isinstance(f0, Q._SetOperation) or isinstance(f0, Q.Table) and (f0._for or f0._for_portion):
+                        if isinstance(f0, Q._SetOperation):
                             raise Unsupported("on_field base (identity)")
                 else:
                     call.update({"kind": "cross"})
